@@ -37,7 +37,7 @@ Proof.
   { intros r r' h. rewrite lookup_remove. destruct (Nat.eqb r r'); [discriminate|apply Hr]. }
   assert (Fin : True) by exact I.
   Ltac fin17 Hr St Rm := first [exact Hr | intros ? ?; first [apply St | apply Rm | apply Hr]].
-  destruct o as [r b f k|r b|r b f c|r b f r2|r r2|r d|r d|r d|r d|r d|r|r|r|r|w r|w r d]; cbn [portable_only] in Ho;
+  destruct o as [r b f k|r b|r b f c|r b f r2|r r2|r r2|r d|r d|r d|r d|r d|r|r|r|r|w r|w r d]; cbn [portable_only] in Ho;
     try (destruct b; try discriminate); cbn [step h_new h_default h_restore e_prof e_cfg e_addr].
   - split; [reflexivity|]. cbn [of_res fst]. fin17 Hr St Rm.
   - split; [reflexivity|]. cbn [of_res fst]. fin17 Hr St Rm.
@@ -48,6 +48,11 @@ Proof.
     unfold some_plain. destruct (p_from_checkpoint p ck) as [s| |]; cbn [bind of_res fst]; (split; [reflexivity|]); fin17 Hr St Rm.
   - destruct (lookup rs r2) as [h2|] eqn:E2; cbn [fst]; [|split; [reflexivity|exact Hr]].
     pose proof (Hr _ _ E2) as P2. destruct h2 as [[s2| | | |]|]; try contradiction. cbn [h_clone of_res fst].
+    split; [reflexivity|]. fin17 Hr St Rm.
+  - destruct (lookup rs r) as [h1|] eqn:E1; cbn [fst]; [|split; [reflexivity|exact Hr]].
+    destruct (lookup rs r2) as [h2|] eqn:E2; cbn [fst]; [|split; [reflexivity|exact Hr]].
+    pose proof (Hr _ _ E2) as P2. destruct h2 as [[s2| | | |]|]; try contradiction.
+    destruct (Nat.eqb r r2 || negb (same_type h1 (HPlain (CP s2)))); cbn [h_clone of_res fst]; [split; [reflexivity|exact Hr]|].
     split; [reflexivity|]. fin17 Hr St Rm.
   - destruct (lookup rs r) as [h|] eqn:E; cbn [fst]; [|split; [reflexivity|exact Hr]].
     pose proof (Hr _ _ E) as P. destruct h as [[s| | | |]|]; try contradiction. cbn [h_append c_append e_prof e_addr].
